@@ -238,7 +238,11 @@ def c_resolved_bases(P):
         return sym_seq(P_, "resolved_so_far", lambda i: H.obj(f"earlier[{zint(i).sexpr()[:12]}]", ["Class"]))
 
     def post_body(P_, before, after):
-        rb0, rb1 = before["resolved_bases"], after["resolved_bases"]
+        # the accumulator is the one list-valued local of the loop, whatever it is called
+        acc = [k for k, v_ in before.items() if isinstance(v_, (list, SSeq, MList)) and not k.startswith("__") and k != "bases"]
+        if len(acc) != 1:
+            raise Unsupported(f"cannot tell which local accumulates the resolved bases ({acc})")
+        rb0, rb1 = before[acc[0]], after[acc[0]]
         n0, n1 = zint(P_.seq_len(rb0)), zint(P_.seq_len(rb1))
         if not looked:
             P_.prove("every_base_is_looked_up", False)
@@ -258,9 +262,16 @@ def c_resolved_bases(P):
         k_ = P_.fresh_int("earlier_index")
         if P_.branch(z3.And(k_.z >= 0, k_.z < n0)):
             P_.prove("bases_resolved_so_far_are_kept_in_place", P_.identical(P_.seq_at(rb1, k_), P_.seq_at(rb0, k_)))
-    P.loop_specs[(q, 0)] = dict(mode="inv", name="bases", no_break=True, post_body=post_body,
-                                hints={"resolved_bases": hint_resolved, "base_path": lambda P_, nm: P_.fresh_str(nm), "resolved_base": lambda P_, nm: None,
-                                       "base": lambda P_, nm: None})
+    def role_hint(P_, sym, cur):
+        # hints by the role of the carried value, not by its name: the accumulated list is an arbitrary list of classes, everything else is set in the iteration
+        if isinstance(cur, (list, SSeq, MList)):
+            return hint_resolved(P_, sym)
+        if isinstance(cur, (str, SStr)):
+            return P_.fresh_str(sym)
+        return None
+    P.loop_specs[("*", "iter:self.bases")] = dict(mode="inv", name="bases", no_break=True, post_body=post_body, default_hint=role_hint,
+                                                  hints={"base_path": lambda P_, nm: P_.fresh_str(nm), "resolved_base": lambda P_, nm: None, "base": lambda P_, nm: None,
+                                                         "target": lambda P_, nm: None, "found": lambda P_, nm: None})
     kind, res = outcome(P, lambda: P.getattr(cls, "resolved_bases"))
     P.prove("never_raises", kind == "ok", exc=(P.resolve_cls(res) if kind == "raise" else ""))
     P.cover("resolved_bases")
